@@ -1,11 +1,11 @@
-import HdVerif.Model.SegFrames
+import HdVerif.Model.SegFrameLoop
 import HdVerif.Proofs.SegGeom
 import Mathlib.Data.List.Perm.Subperm
-/-! Lemmas for the frame loop of `Segmentation.__init__` (`Model/SegFrames.lean`): bridges to the regenerated pieces
+/-! Lemmas for the frame loop of `Segmentation.__init__` (`Model/SegFrameLoop.lean`): bridges to the regenerated pieces
 (TC03loop), `np.unique(…, return_index=True)` = strictly sorted permutation, the frames of the loop by induction over
 the planes, rank of a plane along the normal = its dimension index value. -/
-namespace HdVerif.SegFramesLemmas
-open HdVerif HdVerif.Gen HdVerif.SegGeom HdVerif.SegGeom.V3 HdVerif.SegFrames HdVerif.SegGeomLemmas
+namespace HdVerif.SegFrameLoopLemmas
+open HdVerif HdVerif.Gen HdVerif.SegGeom HdVerif.SegGeom.V3 HdVerif.SegFrameLoop HdVerif.SegGeomLemmas
 
 /-! ## bridges to the regenerated expressions (tie T) -/
 
@@ -704,4 +704,4 @@ theorem range_filter_gt (n p : Nat) (h : p < n) : ((List.range n).filter (fun j 
   rw [this]
   omega
 
-end HdVerif.SegFramesLemmas
+end HdVerif.SegFrameLoopLemmas
